@@ -97,13 +97,31 @@ def one_tree(args):
         # ---- multi-path verify
         dirs = [d for d in L.dirs if os.path.isdir(os.path.join(root, d)) and not any(c.startswith('.') for c in d.split('/'))]
         if len(dirs) >= 2 and not any(os.path.basename(p).startswith('Manifest') for p in os.listdir(root) if p != 'Manifest'):
+            # discrepancies in several directories, so that more than one path has something to report
+            for _ in range(rng.randrange(0, 4)):
+                gen.mutate(rng, L, root, kind=rng.choice(['delete', 'alter_same', 'alter_size', 'stray']),
+                           manifest_names=False)
             ps = rng.sample(dirs, min(len(dirs), rng.randrange(2, 4)))
-            single = []
+            single, ksingle = [], []
+
+            def reports(o):
+                return sorted('/'.join(namer.path(eo.path)) for eo in o['error_objs']
+                              if isinstance(eo, gem.gemato.exceptions.ManifestMismatch))
+            raised = False
             for d in ps:
                 o3 = gem.run_cli(['verify', '-P', os.path.join(root, d) if d else root])
                 single.append((o3['status'] or 0) if o3['end'] == 'ok' else 1)
-            o4 = gem.run_cli(['verify', '-P'] + [os.path.join(root, d) if d else root for d in ps])
+                o5 = gem.run_cli(['verify', '-P', '-k', os.path.join(root, d) if d else root])
+                ksingle += reports(o5)
+                # something other than a mismatch was logged: the run of this path was cut short
+                raised = raised or o5['end'] != 'ok' or (o5['status'] not in (0, None) and not reports(o5)) or any(
+                    isinstance(eo, Exception) and not isinstance(eo, gem.gemato.exceptions.ManifestMismatch)
+                    for eo in o5['error_objs'])
+            argv = [os.path.join(root, d) if d else root for d in ps]
+            o4 = gem.run_cli(['verify', '-P'] + argv)
+            o6 = gem.run_cli(['verify', '-P', '-k'] + argv)
             recs.append({'kind': 'multiverify', 'single': single, 'status': (o4['status'] or 0) if o4['end'] == 'ok' else 1,
+                         'ksingle': sorted(ksingle), 'kmulti': reports(o6), 'kraised': bool(raised),
                          'meta': dict(meta, paths=ps)})
         return recs
     finally:
